@@ -8,7 +8,9 @@ import (
 	"fmt"
 	"reflect"
 	"testing"
+	"time"
 
+	commonconfig "github.com/smartcontractkit/chainlink-common/pkg/config"
 	cctypes "github.com/smartcontractkit/chainlink-common/pkg/types"
 	"github.com/smartcontractkit/chainlink-common/pkg/types/query"
 	"github.com/smartcontractkit/chainlink-common/pkg/types/query/primitives"
@@ -16,8 +18,10 @@ import (
 	"github.com/smartcontractkit/libocr/offchainreporting2plus/ocr3types"
 	libocrtypes "github.com/smartcontractkit/libocr/ragep2p/types"
 
+	"github.com/smartcontractkit/chainlink-ccip/commit/merkleroot"
 	"github.com/smartcontractkit/chainlink-ccip/internal/mocks"
 	"github.com/smartcontractkit/chainlink-ccip/internal/plugincommon"
+	"github.com/smartcontractkit/chainlink-ccip/internal/plugintypes"
 	"github.com/smartcontractkit/chainlink-ccip/pkg/consts"
 	"github.com/smartcontractkit/chainlink-ccip/pkg/contractreader"
 	readerpkg "github.com/smartcontractkit/chainlink-ccip/pkg/reader"
@@ -292,6 +296,217 @@ func TestVerif_C15_accept_commit(t *testing.T) {
 			sink.Emit("C15_acc_commit", cls, len(srcs) > 0, cPair(in, cNi(o)),
 				map[string]any{"srcs": srcs, "step": st, "rmn": rmn})
 			i++
+		}
+	}
+}
+
+// ===================================================================================================
+// Plugin level: commit.Plugin.Observation (real Plugin via NewPlugin, real merkleroot.Processor, real chain support over
+// the fake home chain) in every state of the commit cycle, under a curse state that changes between the rounds, and the
+// acceptance of the report the cycle leads to.
+// ===================================================================================================
+// a previous outcome that leads to the wanted state; the outcome type ranges over every type with that successor and
+// the fields the state does not use carry leftovers (numbers, roots, ranges of earlier rounds) that must not leak
+func vC15PrevOutcome(r *vRand, state int, sel []uint64, known []uint64) []byte {
+	var o Outcome
+	m := &o.MerkleRootOutcome
+	leftovers := func() {
+		for _, c := range known {
+			if r.Bool() {
+				m.OffRampNextSeqNums = append(m.OffRampNextSeqNums, plugintypes.NewSeqNumChain(cciptypes.ChainSelector(c), 7))
+			}
+			if r.Bool() {
+				m.RootsToReport = append(m.RootsToReport, cciptypes.MerkleRootChain{ChainSel: cciptypes.ChainSelector(c),
+					SeqNumsRange: cciptypes.NewSeqNumRange(4, 6), MerkleRoot: cciptypes.Bytes32{9}})
+			}
+		}
+	}
+	switch state {
+	case 1: // SelectingRangesForReport next
+		m.OutcomeType = vPick(r, []merkleroot.OutcomeType{0, merkleroot.ReportEmpty, merkleroot.ReportTransmitted, merkleroot.ReportTransmissionFailed})
+		if m.OutcomeType != 0 {
+			leftovers()
+			for _, c := range known {
+				if r.Bool() {
+					m.RangesSelectedForReport = append(m.RangesSelectedForReport,
+						plugintypes.ChainRange{ChainSel: cciptypes.ChainSelector(c), SeqNumRange: cciptypes.NewSeqNumRange(4, 6)})
+				}
+			}
+		}
+	case 2: // BuildingReport next
+		m.OutcomeType = merkleroot.ReportIntervalsSelected
+		leftovers()
+		for _, c := range sel {
+			m.RangesSelectedForReport = append(m.RangesSelectedForReport,
+				plugintypes.ChainRange{ChainSel: cciptypes.ChainSelector(c), SeqNumRange: cciptypes.NewSeqNumRange(11, 13)})
+		}
+	case 3: // WaitingForReportTransmission next
+		m.OutcomeType = vPick(r, []merkleroot.OutcomeType{merkleroot.ReportGenerated, merkleroot.ReportInFlight})
+		for _, c := range sel {
+			m.RootsToReport = append(m.RootsToReport,
+				cciptypes.MerkleRootChain{ChainSel: cciptypes.ChainSelector(c), SeqNumsRange: cciptypes.NewSeqNumRange(11, 13), MerkleRoot: cciptypes.Bytes32{1}})
+			m.OffRampNextSeqNums = append(m.OffRampNextSeqNums, plugintypes.NewSeqNumChain(cciptypes.ChainSelector(c), 11))
+			m.RangesSelectedForReport = append(m.RangesSelectedForReport,
+				plugintypes.ChainRange{ChainSel: cciptypes.ChainSelector(c), SeqNumRange: cciptypes.NewSeqNumRange(11, 13)})
+		}
+	}
+	b, err := o.Encode()
+	if err != nil {
+		panic(err)
+	}
+	return b
+}
+
+func TestVerif_C15_cycle_commit(t *testing.T) {
+	ctx := context.Background()
+	r := vNewRand(vSeed() + 19)
+	n := vEnvInt("VERIF_N", 300)
+	sink := vOpenSink("C15_cyc_commit")
+	defer sink.Close()
+	asink := vOpenSink("C15_cyc_acc_commit")
+	defer asink.Close()
+	codec := mocks.NewCommitPluginJSONReportCodec()
+	pool := []uint64{1, 2, 3, 5, 8, 13, 21}
+	q, err := Query{}.Encode()
+	if err != nil {
+		t.Fatal(err)
+	}
+	i := 0
+	for i < n {
+		// one DON configuration, one plugin instance, one or two full cycles
+		k := r.Range(0, 5)
+		perm := r.Perm(len(pool))
+		var known []uint64
+		for x := 0; x < k; x++ {
+			known = append(known, pool[perm[x]])
+		}
+		sup := vPick(r, []int{1, 1, 1, 1, 1, 0})
+		hc := vNewHomeChain()
+		me := commontypes.OracleID(1)
+		m := map[commontypes.OracleID]libocrtypes.PeerID{me: vPeer(1), 2: vPeer(2)}
+		destPeers := []libocrtypes.PeerID{vPeer(2)}
+		if sup == 1 {
+			destPeers = append(destPeers, vPeer(1))
+		}
+		hc.SetChain(900, 1, destPeers)
+		for _, c := range known {
+			hc.SetChain(cciptypes.ChainSelector(c), 1, []libocrtypes.PeerID{vPeer(1), vPeer(2)})
+		}
+		rem := &vC15Remote{}
+		mode := 0
+		rd := &vCCIPReader{
+			CurseFn: func(d cciptypes.ChainSelector, s []cciptypes.ChainSelector) (*readerpkg.CurseInfo, error) {
+				return rem.Fn(d, s)
+			},
+			NextSeqNumFn: func(chains []cciptypes.ChainSelector) ([]cciptypes.SeqNum, error) {
+				if mode == 1 {
+					return nil, vErr
+				}
+				out := make([]cciptypes.SeqNum, len(chains))
+				for x, c := range chains {
+					out[x] = cciptypes.SeqNum(uint64(c) + 1000)
+				}
+				if mode == 2 && len(out) > 0 {
+					out = out[1:]
+				}
+				return out, nil
+			},
+			ExpectedNextFn: func(src, dst cciptypes.ChainSelector) (cciptypes.SeqNum, error) { return 20, nil },
+			MsgsFn: func(chain cciptypes.ChainSelector, rg cciptypes.SeqNumRange) ([]cciptypes.Message, error) {
+				var out []cciptypes.Message
+				for s := rg.Start(); s <= rg.End(); s++ {
+					out = append(out, cciptypes.Message{Header: cciptypes.RampMessageHeader{
+						MessageID: cciptypes.Bytes32{byte(chain), byte(s)}, SourceChainSelector: chain, DestChainSelector: 900, SequenceNumber: s}})
+				}
+				return out, nil
+			},
+		}
+		cfg := pluginconfig.CommitOffchainConfig{
+			RemoteGasPriceBatchWriteFrequency:  *commonconfig.MustNewDuration(time.Minute),
+			TokenPriceBatchWriteFrequency:      *commonconfig.MustNewDuration(0),
+			PriceFeedChainSelector:             900,
+			MaxReportTransmissionCheckAttempts: 3,
+			MaxMerkleTreeSize:                  256,
+			NewMsgScanBatchSize:                256,
+		}
+		p := NewPlugin(1, m, cfg, 900, rd, nil, codec, mocks.NewMessageHasher(), mocks.NullLogger, hc, nil, nil, nil,
+			ocr3types.ReportingPluginConfig{F: 1, N: 4, OracleID: me, ConfigDigest: [32]byte{1}, MaxDurationQuery: time.Second})
+		p.discoveryProcessor = nil
+		cycles := r.Range(1, 2)
+		for cy := 0; cy < cycles && i < n; cy++ {
+			var agreed []uint64 // the sources of the ranges the cycle agreed on in its first round
+			for st := 1; st <= 3 && i < n; st++ {
+				var cls string
+				rem, cls = vC15GenRemote(r, known)
+				mode = vPick(r, []int{0, 0, 0, 0, 0, 1, 2})
+				hc.CfgErr = st != 2 && r.Chance(1, 25)
+				var sel []uint64
+				if st != 1 {
+					sel = agreed
+				}
+				obsBytes, err := p.Observation(ctx, ocr3types.OutcomeContext{SeqNr: uint64(10 + st), PreviousOutcome: vC15PrevOutcome(r, st, sel, known)}, q)
+				if err != nil {
+					t.Fatalf("Observation: %v", err)
+				}
+				obs, err := DecodeCommitPluginObservation(obsBytes)
+				if err != nil {
+					t.Fatal(err)
+				}
+				off := make([]string, len(obs.MerkleRootObs.OffRampNextSeqNums))
+				var offChains []uint64
+				for x, e := range obs.MerkleRootObs.OffRampNextSeqNums {
+					off[x] = cPair(cN(uint64(e.ChainSel)), cN(uint64(e.SeqNum)))
+					offChains = append(offChains, uint64(e.ChainSel))
+				}
+				var rootChains []uint64
+				for _, e := range obs.MerkleRootObs.MerkleRoots {
+					rootChains = append(rootChains, uint64(e.ChainSel))
+				}
+				vSortU64(rootChains)
+				supQ, knownQ := sup, cSome(cListN(known))
+				if hc.CfgErr {
+					supQ, knownQ = 2, cNone()
+				}
+				label := []string{"", "selecting", "building", "waiting"}[st]
+				if st > 1 || cy > 0 {
+					cls = "history/" + cls
+				}
+				in := cTup(cNi(st), cNi(supQ), knownQ, rem.Coq(), cNi(mode), cListN(sel))
+				sink.Emit("C15_cyc_commit", label+"/"+cls, len(known) >= 2 && sup == 1, cPair(in, cPair(cList(off), cListN(rootChains))),
+					map[string]any{"state": label, "known": known, "sup": supQ, "selected": sel, "cycle": cy})
+				i++
+				hc.CfgErr = false
+				if st == 1 {
+					agreed = offChains // what this oracle would vote into the selected ranges
+					if len(agreed) == 0 && len(known) > 0 && r.Chance(1, 3) {
+						agreed = known[:1] // the others agreed on ranges although this oracle saw a curse / failure
+					}
+				}
+				if st == 2 && len(rootChains) > 0 {
+					// the report this cycle leads to, presented for acceptance under whatever is cursed THEN
+					var cls2 string
+					rem, cls2 = vC15GenRemote(r, rootChains)
+					rep := cciptypes.CommitPluginReport{MerkleRoots: obs.MerkleRootObs.MerkleRoots}
+					rb, err := codec.Encode(ctx, rep)
+					if err != nil {
+						t.Fatal(err)
+					}
+					info, _ := ReportInfo{}.Encode()
+					ok, err := p.ShouldAcceptAttestedReport(ctx, 1, ocr3types.ReportWithInfo[[]byte]{Report: rb, Info: info})
+					o := 0
+					if err != nil {
+						o = 2
+					} else if ok {
+						o = 1
+					}
+					var srcs []uint64
+					for _, e := range rep.MerkleRoots {
+						srcs = append(srcs, uint64(e.ChainSel))
+					}
+					ain := cTup(cNi(0), cListN(srcs), rem.Coq(), cTup(cNi(0), cNi(0), cNi(0), "true", "false", cNi(0)))
+					asink.Emit("C15_cyc_acc_commit", "cycle/"+cls2, true, cPair(ain, cNi(o)), map[string]any{"srcs": srcs})
+				}
+			}
 		}
 	}
 }
